@@ -14,3 +14,23 @@ def history(rng, nops, keys):
         else: sc.append("range %d" % rng.randrange(-1, 4))
         sc.append("layout")
     return sc
+
+
+def bighistory(rng, n):
+    """a LARGE map (n keys: beyond any small-map threshold such as 64 / 256 entries): fill, promote, then rounds of
+    delete some old keys / store a never-seen key (the dirty map is rebuilt from the read map: deleted entries are expunged) /
+    store the deleted keys again (unexpunge) / promote / load everything touched; the internal layout is compared at the phase ends"""
+    sc = ["store %d %d" % (k, k + 1) for k in range(n)]
+    sc += ["range -1", "layout"]
+    fresh = n
+    for _ in range(3):
+        ks = rng.sample(range(n), 3)
+        for k in ks[:2]: sc.append(rng.choice(["delete %d", "loadanddelete %d"]) % k)
+        sc += ["store %d %d" % (fresh, 7), "layout"]; fresh += 1
+        sc.append(rng.choice(["store %d 55", "loadorstore %d 56"]) % ks[0])
+        if rng.random() < 0.5: sc.append("loadorstore %d 57" % ks[1])
+        sc.append(rng.choice(["range -1", "range 2", "load %d" % (fresh + 5)]))
+        # enough misses to promote the dirty map through the miss counter as well
+        if rng.random() < 0.5: sc += ["load %d" % (fresh + 9)] * 3
+        sc += ["range -1", "layout"] + ["load %d" % k for k in ks] + ["load %d" % (fresh - 1)]
+    return sc
